@@ -8,6 +8,7 @@ CONSTANTS
   ExtraV = {"rq", "rqp"}
   Only1On = TRUE
   WithRemote = TRUE
+  Froms = {"addr"}
   Kinds = {"pipe", "rpipe"}
   ModOn = TRUE
   Lazy = TRUE
